@@ -42,9 +42,10 @@ func genXMLFragment(r *rand.Rand, depth int) string {
 		case 0:
 			return "<" + name + attrs + "/>"
 		case 1:
-			return "<" + name + attrs + "></" + name + ">"
+			// empty, or nothing but white space (pretty-printed configuration)
+			return "<" + name + attrs + ">" + pick(r, "", "", "\n", " ", "\n    ", "\r\n") + "</" + name + ">"
 		default:
-			txt := pick(r, "eth0", "GigabitEthernet0/0/1", "日本語", "é€", "a &amp; b", "1 &lt; 2", word(r, lower+digits+" .-", 1, 40), word(r, lower, 200, 600))
+			txt := pick(r, "eth0", "GigabitEthernet0/0/1", "日本語", "é€", "a &amp; b", "1 &lt; 2", "line one\r\nline two", word(r, lower+digits+" .-", 1, 40), word(r, lower, 200, 600))
 
 			return "<" + name + attrs + ">" + txt + "</" + name + ">"
 		}
@@ -53,7 +54,7 @@ func genXMLFragment(r *rand.Rand, depth int) string {
 		sb.WriteString("<" + name + attrs + ">")
 		for i := between(r, 1, 3); i > 0; i-- {
 			if r.IntN(3) == 0 {
-				sb.WriteString(pick(r, "\n", "\n  ", " "))
+				sb.WriteString(pick(r, "\n", "\n  ", " ", "\r\n"))
 			}
 			sb.WriteString(genXMLFragment(r, depth-1))
 		}
@@ -344,6 +345,11 @@ func runC03(env *Env, s Scenario) {
 		}
 		if rec.Err != nil {
 			env.Fail("rpc-failed", op.Kind, "op %d (%s) failed: %v", j, op.Kind, rec.Err)
+
+			continue
+		}
+		if rec.InputAtEnd != rec.Input {
+			env.Fail("reported-input-changed-after-return", op.Kind, "op %d (%s): the Input of the response the call returned reads differently at the end of the session:\n then %q\n now  %q", j, op.Kind, firstN(rec.Input, 300), firstN(rec.InputAtEnd, 300))
 
 			continue
 		}
